@@ -373,15 +373,13 @@ func fnSort(ctx *cmdContext, args map[string]any) (output respValue, err error) 
 }
 
 func fnFlushAll(ctx *cmdContext, args map[string]any) (output respValue, err error) {
-	ctx.cs.dss.flushAll()
-	ctx.cs.selectDb(ctx.cs.selectedDb, true)
+	ctx.cs.dss.flushAll(ctx.dsc)
 	output.data = rstrOK
 	return
 }
 
 func fnFlushDb(ctx *cmdContext, args map[string]any) (output respValue, err error) {
-	ctx.cs.dss.flushDb(ctx.cs.selectedDb)
-	ctx.cs.selectDb(ctx.cs.selectedDb, true)
+	ctx.dsc.flush()
 	output.data = rstrOK
 	return
 }
